@@ -279,6 +279,129 @@ def add_checked_section(rng, sd):
     return cname, hname
 
 
+def add_recursive_types(rng, sd):
+    """extends (in place) a schema description by section types that can nest WITHOUT BOUND - nothing in a schema limits how
+    deeply sections nest once a type can (directly or indirectly) hold sections of its own type:
+      'direct'   a type with a slot for sections of its own type;
+      'abstract' an abstract type, and one or two concrete types that implement it and have a slot for it;
+      'mutual'   two types with a slot for each other.
+    The slot is a single section ('*', '+') or a multisection; the types have a few optional keys, nothing required, so a chain
+    of any length conforms.  A slot for the outermost section is added at top level.  Returns the names of the concrete types."""
+    i = len(sd.types)
+    shape = rng.choice(["direct", "direct", "abstract", "abstract", "mutual"])
+
+    def keys(tag):
+        ch = [KeyD_("label", "string", False, False, rng.choice([None, "none"]), "rec%d%slabel" % (i, tag), None)]
+        if rng.random() < 0.5:
+            ch.append(KeyD_("level", "integer", False, False, rng.choice([None, "0"]), "rec%d%slevel" % (i, tag), None))
+        if rng.random() < 0.3:
+            ch.append(KeyD_("tags", "string", True, False, None, "rec%d%stags" % (i, tag), None))
+        return ch
+
+    def slot(ty, tag):
+        multi = rng.random() < 0.4
+        return F.SectD(ty, rng.choice(["*", "+"]) if multi else rng.choice(["*", "*", "+"]), multi, False, "rec%d%schild" % (i, tag), None)
+
+    KeyD_ = F.KeyD
+    kt = lambda: rng.choice([None, None, "identifier", "ipaddr-or-hostname"])      # noqa: E731
+    a, b, ab = "rnode%d" % i, "rleaf%d" % i, "rabs%d" % i
+    if shape == "direct":
+        ch = keys("a") + [slot(a, "a")]
+        rng.shuffle(ch)
+        sd.types.append(F.TypeD(a, ch, kt(), rng.choice([None, None, "zcvdt.wrap"])))
+        names, outer = [a], a
+    elif shape == "abstract":
+        sd.types.append(F.AbsD(ab))
+        names = [a] + ([b] if rng.random() < 0.5 else [])
+        for n, tag in zip(names, "ab"):
+            ch = keys(tag) + [slot(ab, tag)]
+            rng.shuffle(ch)
+            sd.types.append(F.TypeD(n, ch, kt(), rng.choice([None, None, "zcvdt.wrap"]), implements=ab))
+        outer = ab
+    else:
+        # (a type is known from its opening tag on, a type named further down is not: the second type holds the first, the
+        #  first reaches the second through an abstract type that only the second implements)
+        sd.types.append(F.AbsD(ab))
+        cha = keys("a") + [slot(ab, "a")]
+        rng.shuffle(cha)
+        sd.types.append(F.TypeD(a, cha, kt(), None))
+        chb = keys("b") + [slot(a, "b")]
+        rng.shuffle(chb)
+        sd.types.append(F.TypeD(b, chb, kt(), None, implements=ab))
+        names, outer = [a, b], a
+    sd.children.append(F.SectD(outer, "*", rng.random() < 0.5, False, "recroot%d" % i, None))
+    return names
+
+
+def chain_holders(elab, depth):
+    """for k = 0 .. depth the containers (names of concrete section types; None = the top level) that can hold a chain of k
+    enclosing sections around an innermost section that may be EMPTY: the innermost section is of a type that requires
+    nothing, the enclosing ones of types that require no section (a chain alone has to conform; the keys are given).
+    Types that can nest without bound are those found at every k."""
+    cons = {n: te[1][4] for n, te in elab[1] if te[0] == "concrete"}
+    cons[None] = elab[2][4]
+    emptyable = {n for n in cons if n is not None and not any(info[4] for _, info in cons[n])}
+    linkable = {n for n in cons if n is not None and not any(info[0] == "sect" and info[4] for _, info in cons[n])}
+
+    def holders(inner):
+        return {n for n, children in cons.items()
+                if any(info[0] == "sect" and any(t in inner for t in _implementers(elab, info[5])) for _, info in children)}
+
+    out = [holders(emptyable)]
+    for _ in range(depth):
+        out.append(holders(out[-1] & linkable))
+    return out, emptyable
+
+
+def gen_chain_items(rng, elab, depth, pfill=0.6, pbad=0.0):
+    """an item tree that nests sections exactly `depth` deep around one EMPTY innermost section (depth 0: the empty section
+    stands at top level).  The top level is an ordinary text of the schema (optional sections up to two deep); every enclosing
+    section of the chain gets the keys the generator of the ordinary texts gives it and no further sections, except now and
+    then an empty sibling in a multisection slot.  The types are chosen so that the chain conforms (chain_holders); None when
+    the schema offers no such chain from the top level (it has no types that nest without bound, or they need more than a chain).
+    The innermost section is marked to be written '<t/>' or '<t>' '</t>' at random."""
+    hold, emptyable = chain_holders(elab, depth)
+    if None not in hold[depth]:
+        return None
+
+    def level(tyname, d):
+        """the items of a container of type tyname that holds d more enclosing sections and then the empty one"""
+        children, kt = _children_of(elab, tyname)
+        items = gen_items(rng, elab, tyname, 2 if tyname is None else 0, pfill, pbad=pbad, fill_required=True)
+        slots = []
+        for key, info in children:
+            if info[0] != "sect":
+                continue
+            for t in _implementers(elab, info[5]):
+                if (t in emptyable) if d == 0 else (t in hold[d - 1] and not any(i2[0] == "sect" and i2[4] for _, i2 in _children_of(elab, t)[0])):
+                    nm = info[1] if info[1] not in ("*", "+") else (_free_name(rng, 1000 + d) if info[1] == "+" or rng.random() < 0.5 else None)
+                    if claiming_child(elab, children, t, nm.lower() if nm else None) is info:
+                        slots.append((info, t, nm))
+        if not slots:
+            return None
+        info, t, nm = rng.choice(slots)
+        if not info[3]:
+            # a slot for one section: the chain is its occupant
+            items = [it for it in items
+                     if not (it[0] == "sect" and claiming_child(elab, children, it[1].lower(), it[2].lower() if it[2] else None) is info)]
+        if d == 0:
+            s = sect(_case_variant(rng, t) if rng.random() < 0.3 else t, nm, [], empty=rng.random() < 0.5)
+        else:
+            sub = level(t, d - 1)
+            if sub is None:
+                return None
+            s = sect(_case_variant(rng, t) if rng.random() < 0.3 else t, nm, sub)
+        new = [s]
+        if info[3] and t in emptyable and rng.random() < 0.2:
+            # a sibling in the same multisection slot: an empty section under another name
+            new.insert(rng.randint(0, 1), sect(t, "sib%d" % d, [], empty=rng.random() < 0.5))
+        pos = rng.randint(0, len(items))
+        items[pos:pos] = new
+        return items
+
+    return level(None, depth)
+
+
 ATTR_SPELLINGS = [lambda n: "_" + n, lambda n: "_" + n, lambda n: "__" + n, lambda n: "_" + n + "_", lambda n: n + "_",
                   lambda n: "__" + n + "__", lambda n: n.upper(), lambda n: n.capitalize(), lambda n: "_" + n.capitalize()]
 
@@ -377,17 +500,19 @@ def _implementers(elab, tyname):
 EMPTY_OK = ("string", "null", "string-list", "zcvdt.marker")
 
 
-def _value(rng, dt, pempty):
+def _value(rng, dt, pempty, pbad=0.03):
     """a value for a key of datatype dt; with probability pempty the empty value where the datatype converts it (a key that
     is PRESENT with the value '' - not an absent key: it holds the conversion of '', never the schema default)"""
     if pempty and dt in EMPTY_OK and rng.random() < pempty:
         return ""
-    return _pick_value(rng, dt, 0.03)
+    return _pick_value(rng, dt, pbad)
 
 
-def gen_items(rng, elab, tyname, depth, pfill=0.75, pempty=0.0):
+def gen_items(rng, elab, tyname, depth, pfill=0.75, pempty=0.0, pbad=0.03, fill_required=False):
     """a (mostly) conforming item list for the container type (pempty: share of empty values among the keys whose
-    datatype converts the empty string; 0 = never, and then no random draw is spent on it)"""
+    datatype converts the empty string; 0 = never, and then no random draw is spent on it; pbad: share of values that the
+    datatype of their key does not convert; fill_required: the sections that the schema REQUIRES are given below the depth
+    bound too - only the optional ones stop there - so that the bound does not cost conformance)"""
     children, kt = _children_of(elab, tyname)
     items = []
     usednames = set()
@@ -405,14 +530,14 @@ def gen_items(rng, elab, tyname, depth, pfill=0.75, pempty=0.0):
                 rng.shuffle(ks)
                 for k in ks[: rng.randint(1, 2)]:
                     for _ in range(n):
-                        items.append(kv(_maybe_case(rng, kt, k), _value(rng, dt, pempty)))
+                        items.append(kv(_maybe_case(rng, kt, k), _value(rng, dt, pempty, pbad)))
             else:
                 for _ in range(n):
-                    items.append(kv(_maybe_case(rng, kt, name), _value(rng, dt, pempty)))
+                    items.append(kv(_maybe_case(rng, kt, name), _value(rng, dt, pempty, pbad)))
         else:
             _, name, attr, multi, mn, ty, h = info
             fill = rng.random() < pfill or mn
-            if not fill or depth <= 0:
+            if not fill or (depth <= 0 and not (fill_required and mn and depth > -8)):
                 continue
             impls = _implementers(elab, ty)
             if not impls:
@@ -433,7 +558,7 @@ def gen_items(rng, elab, tyname, depth, pfill=0.75, pempty=0.0):
                     continue
                 if nm:
                     usednames.add(nm.lower())
-                sub = gen_items(rng, elab, t, depth - 1, pfill, pempty)
+                sub = gen_items(rng, elab, t, depth - 1, pfill, pempty, pbad, fill_required)
                 items.append(sect(_case_variant(rng, t) if rng.random() < 0.3 else t,
                                   (_case_variant(rng, nm) if rng.random() < 0.3 else nm) if nm else None,
                                   sub, empty=(not sub and rng.random() < 0.6)))
